@@ -24,7 +24,7 @@ def fitsE : Expr ν → Bool
   | .cond c t e => fitsE c && fitsE t && fitsE e
   | .str parts => decide (parts.length < 65536) && fitsP parts
   | .mk _ fields => decide (fields.length < 65536) && fitsF fields
-  | .fld e _ _ => fitsE e
+  | .fld e _ info => decide (info.fields.length < 65536) && fitsE e
   | .list es => decide (es.length < 65536) && fitsL es
 def fitsL : List (Expr ν) → Bool
   | [] => true
